@@ -91,6 +91,9 @@ def build(ld, prog, fns=None, stage_prefix='s', hook=None):
         # ... and boolean flags as Python bools or as numpy bools (what a
         # comparison on arrays returns), in turn
         B = (lambda v: np.bool_(v)) if i % 3 == 2 else (lambda v: v)
+        # ... and integer parameters as Python ints or as numpy integers of
+        # various widths (a batch size read from an array, a count from .shape)
+        I = (np.uint8, np.int64, np.int16, int)[(i + len(prog['ops']) - 1) % 4]
         operand_ds = operand_m = None
         if k in BINARY:
             spec = op[1]
@@ -188,8 +191,8 @@ def build(ld, prog, fns=None, stage_prefix='s', hook=None):
         elif k == 'key_zip':
             ds = ds.key_zip(operand_ds)
         elif k == 'batch':
-            ds = ds.batch(op[1], B(op[2])) if pos else \
-                ds.batch(batch_size=op[1], drop_last=B(op[2]))
+            ds = ds.batch(I(op[1]), B(op[2])) if pos else \
+                ds.batch(batch_size=I(op[1]), drop_last=B(op[2]))
         elif k == 'unbatch':
             ds = ds.unbatch()
         elif k == 'batch_map':
@@ -197,7 +200,7 @@ def build(ld, prog, fns=None, stage_prefix='s', hook=None):
         elif k == 'items':
             ds = ds.items()
         elif k == 'tile':
-            ds = ds.tile(op[1])
+            ds = ds.tile(I(op[1]))
         elif k == 'tile_shuffle':
             np.random.seed(op[2])
             ds = ds.tile(op[1], B(True)) if pos else ds.tile(reps=op[1], shuffle=B(True))
@@ -212,10 +215,10 @@ def build(ld, prog, fns=None, stage_prefix='s', hook=None):
         elif k == 'sort_keyless':
             ds = ds.sort(None, sorted, B(op[1])) if pos else ds.sort(reverse=B(op[1]))
         elif k == 'shard':
-            ds = ds.shard(op[1], op[2]) if pos else \
-                ds.shard(num_shards=op[1], shard_index=op[2])
+            ds = ds.shard(I(op[1]), I(op[2])) if pos else \
+                ds.shard(num_shards=I(op[1]), shard_index=I(op[2]))
         elif k == 'split':
-            ds = (ds.split(op[1]) if pos else ds.split(sections=op[1]))[op[2]]
+            ds = (ds.split(I(op[1])) if pos else ds.split(sections=I(op[1])))[I(op[2])]
         elif k == 'cache':
             ds = ds.cache()
         elif k == 'ecache':
@@ -229,11 +232,11 @@ def build(ld, prog, fns=None, stage_prefix='s', hook=None):
         elif k == 'freeze':
             ds = ds.copy(B(True)) if pos else ds.copy(freeze=B(True))
         elif k == 'prefetch1':
-            ds = ds.prefetch(1, op[1]) if pos else \
-                ds.prefetch(num_workers=1, buffer_size=op[1])
+            ds = ds.prefetch(I(1), I(op[1])) if pos else \
+                ds.prefetch(num_workers=I(1), buffer_size=I(op[1]))
         elif k == 'prefetcht':
-            ds = ds.prefetch(op[1], op[2], 't') if pos else \
-                ds.prefetch(num_workers=op[1], buffer_size=op[2], backend='t')
+            ds = ds.prefetch(I(op[1]), I(op[2]), 't') if pos else \
+                ds.prefetch(num_workers=I(op[1]), buffer_size=I(op[2]), backend='t')
         else:
             raise ValueError(f'unknown op {op!r}')
         # ---- the model alongside (only needed to resolve symbolic forms)
